@@ -22,7 +22,8 @@ EXPLANATION = (
     'that _build_migrations_info excludes from every plan it builds; '
     'R-C10.4 (write-back) after the batch loop, under "migrating", every '
     'app signature gets applied_migrations from the migration table; '
-    'R-C10.5 every comparison against an UpgradeMethod member is by value (==, !=, in), never by identity: stored signatures come back with equal, not identical, strings.')
+    'R-C10.5 every comparison against an UpgradeMethod member is by value (==, !=, in), never by identity: stored signatures come back with equal, not identical, strings; '
+    'R-C10.6 the container recorded up front receives no plan-derived targets (or is a snapshot / restored); R-C10.7 to_mark_applied is published whether or not a migration is pending; R-C10.8 the batch builder simulates pending mutations on the real signature under no condition but their existence (the earlier `if migrating:` clause of R-C10.3/.4 was dropped as not necessary).')
 NOT_DECIDED = (
     'Which migrations are recorded/executed for every start state (depends '
     'on Django\'s loader/executor and on the database).')
